@@ -33,7 +33,19 @@ func loopsOf(fn *ssa.Function) []loopInfo {
 				li.blocks[x] = true
 				stack = append(stack, x.Preds...)
 			}
-			out = append(out, li)
+			// several back edges to one header (continue statements) are one loop
+			merged := false
+			for i := range out {
+				if out[i].header == h {
+					for x := range li.blocks {
+						out[i].blocks[x] = true
+					}
+					merged = true
+				}
+			}
+			if !merged {
+				out = append(out, li)
+			}
 		}
 	}
 	return out
